@@ -569,19 +569,26 @@ func evalCase(c *hl.Ctx, fam string, toks []tok, want interface{}, text []byte, 
 	return false
 }
 
-type tierCfg struct {
-	fullB       int // all 7^b decoration vectors up to this many boundaries
-	maxDec      int // beyond: at most this many decorated boundaries
-	finalMaxDec int // final-comment variants for vectors with <= this many decorated boundaries (all when b <= finalFullB)
-	finalFullB  int
-	splitMaxDec int // every 2-split for vectors with <= this many decorated boundaries
-	oneMaxDec   int // 1-byte and data+EOF reads for vectors with <= this many decorated boundaries (always when b<=fullB)
+// famCfg bounds the decoration / read enumeration of one document family.
+type famCfg struct {
+	fullB       int  // all 7^b decoration vectors for documents with <= fullB boundaries
+	maxDec      int  // otherwise every vector with at most maxDec decorated boundaries
+	finalAll    bool // final-comment variants for every vector ...
+	finalMaxDec int  // ... or for vectors with <= finalMaxDec decorated boundaries (-1: none)
+	extraMaxDec int  // 1-byte and data+EOF reads for vectors with <= extraMaxDec decorated boundaries (99: all)
+	splitMaxDec int  // every 2-split for vectors with <= splitMaxDec decorated boundaries (-1: none)
+	splitFinals bool // 2-splits also for the final-comment variants
+}
+
+func (f famCfg) String() string {
+	return fmt.Sprintf("all 7^b vectors for b<=%d else <=%d decorated; finals: all=%v or <=%d decorated; 1-byte/data+EOF reads: <=%d decorated; every 2-split: <=%d decorated (with finals: %v)",
+		f.fullB, f.maxDec, f.finalAll, f.finalMaxDec, f.extraMaxDec, f.splitMaxDec, f.splitFinals)
 }
 
 var sampleTick int64
 
 // runDoc enumerates all decorations / finals / reads of one document.
-func runDoc(c *hl.Ctx, d doc, tc tierCfg) {
+func runDoc(c *hl.Ctx, d doc, tc famCfg) {
 	tt := texts(d.toks)
 	plain := []byte(strings.Join(tt, ""))
 	// harness self-checks: the reference lexer recovers exactly the generated tokens, and the text is valid JSON
@@ -604,24 +611,24 @@ func runDoc(c *hl.Ctx, d doc, tc tierCfg) {
 	n := 0
 	vectors(b, tc.fullB, tc.maxDec, func(vec []uint8, ndec int) bool {
 		n++
-		if n%2048 == 0 && c.Expired() {
+		if n%1024 == 0 && c.Expired() {
 			return false
 		}
 		finals := 1
-		if b <= tc.finalFullB || ndec <= tc.finalMaxDec {
+		if tc.finalAll || ndec <= tc.finalMaxDec {
 			finals = len(jsonref.Finals)
 		}
 		for final := 0; final < finals; final++ {
 			buf = jsonref.Decorate(buf, tt, vec, final)
 			hc := hasComment(vec, final)
-			ok := evalCase(c, d.fam, d.toks, want, buf, vec, final, hc, rmode{Kind: rWhole})
-			if b <= tc.fullB || ndec <= tc.oneMaxDec {
-				ok = evalCase(c, d.fam, d.toks, want, buf, vec, final, hc, rmode{Kind: rOneByte}) && ok
-				ok = evalCase(c, d.fam, d.toks, want, buf, vec, final, hc, rmode{Kind: rWholeEOF}) && ok
+			evalCase(c, d.fam, d.toks, want, buf, vec, final, hc, rmode{Kind: rWhole})
+			if ndec <= tc.extraMaxDec {
+				evalCase(c, d.fam, d.toks, want, buf, vec, final, hc, rmode{Kind: rOneByte})
+				evalCase(c, d.fam, d.toks, want, buf, vec, final, hc, rmode{Kind: rWholeEOF})
 			}
-			if ndec <= tc.splitMaxDec {
+			if ndec <= tc.splitMaxDec && (final == 0 || tc.splitFinals) {
 				for k := 1; k < len(buf); k++ {
-					ok = evalCase(c, d.fam, d.toks, want, buf, vec, final, hc, rmode{Kind: rSplit, K: k}) && ok
+					evalCase(c, d.fam, d.toks, want, buf, vec, final, hc, rmode{Kind: rSplit, K: k})
 				}
 			}
 			if hc {
@@ -633,7 +640,6 @@ func runDoc(c *hl.Ctx, d doc, tc tierCfg) {
 			if hc && (sampleTick == 50 || sampleTick%300000 == 0) {
 				c.Sample(map[string]interface{}{"family": d.fam, "document": string(plain), "decorated": string(buf)})
 			}
-			_ = ok
 		}
 		return true
 	})
@@ -729,8 +735,8 @@ func evalBig(c *hl.Ctx, bc bigCase, m rmode) {
 	hc := bc.Variant != 0 || strings.HasSuffix(bc.Kind, "comment")
 	v := judge(text, want, hc, m)
 	if v.clause == "" {
-		if hc {
-			c.Nontrivial(fmt.Sprintf("big/%+v", bc))
+		if hc && m.Kind == rWhole {
+			c.Add("distinct_nontrivial", 1)
 		}
 		return
 	}
@@ -767,8 +773,8 @@ func evalBig(c *hl.Ctx, bc bigCase, m rmode) {
 var countOnly = os.Getenv("C17_COUNT") != ""
 
 func run(c *hl.Ctx) {
-	c.Rule("E3 bounded-exhaustive. Documents (deduplicated by text): family S = every string of <=3 elements of the hostile alphabet as top-level value, array element, object key, object value (+ alternative \\u/\\/ escapes); family P = every ordered pair of strings of <=2 elements as [s,t] and {s:t}; family T = every value tree of depth<=2 over the atom/filler alphabets (see info). Each document x decoration vector over the 7-element decoration alphabet at every token boundary (all 7^b vectors up to full_boundaries, otherwise every vector with <= max_decorated decorated boundaries) x final unterminated line comment {none, //c, //} x reads {whole, data+EOF, 1-byte, every 2-split}. Family size = documents of 65535..262145 bytes made of one long string / number run / space run / block comment / line comment / many short strings x read modes. distinct_nontrivial = number of distinct decorated texts containing at least one comment that went through the oracle (documents deduplicated by hash of their text; distinct decoration vectors of one token list give distinct texts by construction; read modes are not counted).")
-	c.Assume("encoding/json is the reference decoder for the undecorated text", "the reference tokenizer (RFC 8259 lexical grammar) agrees with the generator on every generated document (self-checked)",
+	c.Rule("E3 bounded-exhaustive. Documents (deduplicated by text): family S = every string of <=3 elements of the hostile alphabet as top-level value, array element, object key, object member value (+ the same strings spelled with the alternative \\uXXXX and \\/ escapes); family P = every ordered pair of strings of <=2 elements as [s,t] and {s:t}; family T = every value tree of depth<=2 over the atom/filler/key alphabets (bounds in info.families). Each document x decoration vector over the 7-element decoration alphabet at every token boundary (all 7^b vectors up to the family's full bound, otherwise every vector with at most max decorated boundaries) x final unterminated line comment {none, //c, //} x reads {whole, data+EOF in one call, 1-byte, every 2-split}. Family size = documents of 65535..262145 bytes made of one long string / number run / space run / block comment / line comment / many short strings x {plain, line comment before the last token, final //c} x read modes. distinct_nontrivial = number of distinct decorated texts containing at least one comment that went through the oracle (documents are deduplicated by their text before sharding; distinct decoration vectors of one token list give distinct texts by construction; read modes are not counted).")
+	c.Assume("encoding/json is the reference decoder for the undecorated text", "the reference tokenizer (RFC 8259 lexical grammar) agrees with the generator on every generated document (self-checked on every document)",
 		"comments are only placed between tokens; only // and /* */ comments are used; documents are valid JSON")
 	c.Info("string_alphabet", strAlphabet)
 	c.Info("decoration_alphabet", jsonref.Decorations)
@@ -776,25 +782,16 @@ func run(c *hl.Ctx) {
 	c.Info("atoms", atoms)
 	c.Info("hostile_filler", hostile)
 
-	var tc tierCfg
-	maxLeaves := 2
-	pairLen := 2
-	if c.Quick() {
-		tc = tierCfg{fullB: 4, maxDec: 2, finalMaxDec: 1, finalFullB: 4, splitMaxDec: 1, oneMaxDec: 2}
-	} else {
-		tc = tierCfg{fullB: 6, maxDec: 2, finalMaxDec: 2, finalFullB: 6, splitMaxDec: 2, oneMaxDec: 2}
-		maxLeaves = 4
-	}
-	c.Info("full_boundaries", tc.fullB)
-	c.Info("max_decorated_beyond", tc.maxDec)
-	c.Info("tree_max_leaves", maxLeaves)
-
 	seen := map[string]struct{}{}
 	idx := 0
 	stop := false
-	emit := func(fam string, toks []tok) {
+	fams := map[string]string{}
+	emit := func(fam string, toks []tok, tc famCfg) {
 		if stop {
 			return
+		}
+		if _, ok := fams[fam]; !ok {
+			fams[fam] = tc.String()
 		}
 		key := strings.Join(texts(toks), "")
 		if _, ok := seen[key]; ok {
@@ -814,7 +811,6 @@ func run(c *hl.Ctx) {
 			vectors(len(toks)+1, tc.fullB, tc.maxDec, func(vec []uint8, ndec int) bool { nv++; return true })
 			c.Add("count/"+fam+"/docs", 1)
 			c.Add("count/"+fam+"/vectors", nv)
-			c.Add(fmt.Sprintf("count/boundaries=%02d/docs", len(toks)+1), 1)
 			return
 		}
 		runDoc(c, doc{fam, toks}, tc)
@@ -825,13 +821,14 @@ func run(c *hl.Ctx) {
 	if c.Thorough() {
 		sizes = append(sizes, 262145)
 	}
+	c.Info("size_classes", sizes)
 	for _, n := range sizes {
 		for _, kind := range bigKinds {
 			for variant := 0; variant < 3; variant++ {
 				bc := bigCase{Kind: kind, N: n, Variant: variant}
 				for _, m := range bigModes(c, n) {
 					idx++
-					if !c.Mine(idx) {
+					if !c.Mine(idx) || countOnly {
 						continue
 					}
 					if c.Expired() {
@@ -846,30 +843,86 @@ func run(c *hl.Ctx) {
 		c.Sample(map[string]interface{}{"family": "size", "kind": "block-comment", "n": 65536, "variant": 1, "read": "chunk4096"})
 	}
 
-	// family S
-	s3 := allStrings(3)
-	c.Info("strings_len<=3", len(s3))
-	for _, s := range s3 {
-		emit("S/value", []tok{sTok(s)})
-		emit("S/element", []tok{pTok("["), sTok(s), pTok("]")})
-		emit("S/key", []tok{pTok("{"), sTok(s), pTok(":"), pTok("12"), pTok("}")})
-		emit("S/member", []tok{pTok("{"), sTok("a"), pTok(":"), sTok(s), pTok("}")})
-		if jsonref.QuoteAlt(s) != jsonref.Quote(s) {
-			emit("S/alt-escapes", []tok{pTok("["), altTok(s), pTok("]")})
-		}
-	}
-	// family P
-	s2 := allStrings(pairLen)
-	c.Info("strings_len<=2", len(s2))
-	for _, s := range s2 {
-		for _, t := range s2 {
-			emit("P/array", []tok{pTok("["), sTok(s), pTok(","), sTok(t), pTok("]")})
-			emit("P/object", []tok{pTok("{"), sTok(s), pTok(":"), sTok(t), pTok("}")})
-		}
-	}
-	// family T
+	s1, s2, s3 := allStrings(1), allStrings(2), allStrings(3)
+	c.Info("strings", map[string]int{"len<=1": len(s1), "len<=2": len(s2), "len<=3": len(s3)})
 	fillers := []string{"a", hostile}
-	treeDocs(atoms, fillers, fillers, maxLeaves, func(toks []tok) { emit("T/tree", toks) })
+	value := func(s string) []tok { return []tok{sTok(s)} }
+	element := func(s string) []tok { return []tok{pTok("["), sTok(s), pTok("]")} }
+	altElem := func(s string) []tok { return []tok{pTok("["), altTok(s), pTok("]")} }
+	keyDoc := func(s string) []tok { return []tok{pTok("{"), sTok(s), pTok(":"), pTok("12"), pTok("}")} }
+	member := func(s string) []tok { return []tok{pTok("{"), sTok("a"), pTok(":"), sTok(s), pTok("}")} }
+	pairA := func(s, t string) []tok { return []tok{pTok("["), sTok(s), pTok(","), sTok(t), pTok("]")} }
+	pairO := func(s, t string) []tok { return []tok{pTok("{"), sTok(s), pTok(":"), sTok(t), pTok("}")} }
+
+	if c.Quick() {
+		full2 := famCfg{fullB: 2, finalAll: true, extraMaxDec: 99, splitMaxDec: 99, splitFinals: true}
+		full4 := famCfg{fullB: 4, finalMaxDec: 1, extraMaxDec: 99, splitMaxDec: 1}
+		le2 := famCfg{fullB: 0, maxDec: 2, finalMaxDec: 1, extraMaxDec: 99, splitMaxDec: 1}
+		le1 := famCfg{fullB: 0, maxDec: 1, finalMaxDec: 1, extraMaxDec: 99, splitMaxDec: -1}
+		tree := famCfg{fullB: 4, maxDec: 1, finalMaxDec: 1, extraMaxDec: 99, splitMaxDec: 1}
+		for _, s := range s3 {
+			emit("S/value", value(s), full2)
+			emit("S/element", element(s), full4)
+			emit("S/key", keyDoc(s), le2)
+			emit("S/member", member(s), le2)
+			if jsonref.QuoteAlt(s) != jsonref.Quote(s) {
+				emit("S/alt-escapes", altElem(s), le2)
+			}
+		}
+		for _, s := range s1 {
+			for _, t := range s1 {
+				emit("P1/array", pairA(s, t), le2)
+				emit("P1/object", pairO(s, t), le2)
+			}
+		}
+		for _, s := range s2 {
+			for _, t := range s2 {
+				emit("P2/array", pairA(s, t), le1)
+				emit("P2/object", pairO(s, t), le1)
+			}
+		}
+		c.Info("tree_bounds", "depth<=2, <=2 leaves over 6 atoms + hostile filler string, keys {hostile filler}")
+		treeDocs(atoms, fillers[1:], fillers[1:], 2, func(toks []tok) { emit("T/tree", toks, tree) })
+	} else {
+		full2 := famCfg{fullB: 2, finalAll: true, extraMaxDec: 99, splitMaxDec: 99, splitFinals: true}
+		full4 := famCfg{fullB: 4, finalAll: true, extraMaxDec: 99, splitMaxDec: 2, splitFinals: true}
+		full6 := famCfg{fullB: 6, finalMaxDec: 2, extraMaxDec: 2, splitMaxDec: 2}
+		le3 := famCfg{fullB: 0, maxDec: 3, finalMaxDec: 2, extraMaxDec: 99, splitMaxDec: 2}
+		le2 := famCfg{fullB: 0, maxDec: 2, finalMaxDec: 1, extraMaxDec: 99, splitMaxDec: 1}
+		tree2 := famCfg{fullB: 4, maxDec: 2, finalMaxDec: 1, extraMaxDec: 99, splitMaxDec: 1}
+		tree4 := famCfg{fullB: 4, maxDec: 1, finalMaxDec: 1, extraMaxDec: 99, splitMaxDec: 1}
+		for _, s := range s3 {
+			emit("S/value", value(s), full2)
+			emit("S/element", element(s), full4)
+			if jsonref.QuoteAlt(s) != jsonref.Quote(s) {
+				emit("S/alt-escapes", altElem(s), full4)
+			}
+		}
+		for _, s := range s2 {
+			emit("S/key", keyDoc(s), full6)
+			emit("S/member", member(s), full6)
+		}
+		for _, s := range s3 {
+			emit("S/key", keyDoc(s), le3)
+			emit("S/member", member(s), le3)
+		}
+		for _, s := range s1 {
+			for _, t := range s1 {
+				emit("P1/array", pairA(s, t), full6)
+				emit("P1/object", pairO(s, t), full6)
+			}
+		}
+		for _, s := range s2 {
+			for _, t := range s2 {
+				emit("P2/array", pairA(s, t), le2)
+				emit("P2/object", pairO(s, t), le2)
+			}
+		}
+		c.Info("tree_bounds", "depth<=2: <=2 leaves over 6 atoms + strings {a, hostile filler}, keys {a, hostile filler}; 3..4 leaves over atoms {12, {}} + hostile filler string, keys {hostile filler}")
+		treeDocs(atoms, fillers, fillers, 2, func(toks []tok) { emit("T/tree<=2", toks, tree2) })
+		treeDocs([]string{"12", "{}"}, fillers[1:], fillers[1:], 4, func(toks []tok) { emit("T/tree<=4", toks, tree4) })
+	}
+	c.Info("families", fams)
 	c.Info("documents_enumerated", len(seen))
 }
 
